@@ -373,3 +373,45 @@ mod tests {
         }
     }
 }
+
+/// verif-hooks: actor-less construction and `poll_recv` pass-through for the external
+/// verification harness (see `crate::verif_hooks::relay_recv`).
+#[cfg(feature = "verif-hooks")]
+impl RelayTransport {
+    /// Builds a [`RelayTransport`] whose receive queue is fed by the returned sender
+    /// instead of a [`RelayActor`].  Must be called inside a tokio runtime context.
+    pub(crate) fn verif_new_without_actor(
+        recv_queue_capacity: usize,
+        my_endpoint_id: EndpointId,
+    ) -> (Self, mpsc::Sender<RelayRecvDatagram>) {
+        let (relay_datagram_send_tx, _relay_datagram_send_rx) = mpsc::channel(256);
+        let (relay_datagram_recv_tx, relay_datagram_recv_rx) = mpsc::channel(recv_queue_capacity);
+        let (actor_sender, _actor_receiver) = mpsc::channel(256);
+        let actor_handle = AbortOnDropHandle::new(task::spawn(async move {}));
+        let this = Self {
+            relay_datagram_recv_queue: relay_datagram_recv_rx,
+            relay_datagram_send_channel: relay_datagram_send_tx,
+            pending_item: None,
+            actor_sender,
+            _actor_handle: actor_handle,
+            my_relay: HomeRelayWatch::default(),
+            my_endpoint_id,
+        };
+        (this, relay_datagram_recv_tx)
+    }
+
+    /// Unchanged pass-through to [`RelayTransport::poll_recv`].
+    pub(crate) fn verif_poll_recv(
+        &mut self,
+        cx: &mut Context,
+        bufs: &mut [io::IoSliceMut<'_>],
+        metas: &mut [noq_udp::RecvMeta],
+        recv_infos: &mut [RecvInfo],
+    ) -> Poll<io::Result<usize>> {
+        self.poll_recv(cx, bufs, metas, recv_infos)
+    }
+}
+
+/// verif-hooks: nameable alias of the queue item type for `crate::verif_hooks::relay_recv`.
+#[cfg(feature = "verif-hooks")]
+pub(crate) type VerifRelayRecvDatagram = RelayRecvDatagram;
